@@ -5,12 +5,19 @@
     * both are well-formed (certificate checked by the kernel) and free of flags/exclusions, hence
     * for every text, every offset and every one of the rules, the engine terminates and its answer lists
       EXACTLY the ends derivable in the respective grammar (C01 instantiated).
-  What is NOT proved: that the two grammars define the same ends rule for rule (that is the differential part
-  of ./check C05; the planned verified equivalence checker was not built).
+    * RULE FOR RULE the two tables define the same language (`reader_equiv_rfc`): the verified inclusion
+      checker of Abnf/Equiv.lean accepts both directions for every one of the reader's 36 rules paired by NAME
+      with the RFC's rule (kernel evaluation over the regenerated table), so
+    * the reader's engine answer lists exactly the ends derivable in the RFC grammar (`reader_exact_wrt_rfc`).
+  What is modelled, not verified: `Ref.rfcG` was typed by hand from the RFC text (40 rules, reviewed against
+  RFC 5234 section 4 / appendix B.1 and RFC 7405 section 2.2; cross-checked at run time against the independent
+  Python reader `harness/abnf_ref.py` by ./check C05).
 -/
 import Abnf.Obligations.Meta
 import Abnf.Ref
 import Abnf.Theorems.C01
+import Abnf.Equiv
+import Abnf.AcceptOn
 namespace Abnf.C05
 
 theorem rfc_wf : wfAuto Ref.rfcG = true := by decide +kernel
@@ -33,5 +40,54 @@ theorem reference_total_and_exact :
       lparse Ref.rfcG f s (.ref r) i = .gerr := by
   obtain ⟨N, rank, K, D, hw⟩ := wfAuto_sound Ref.rfcG rfc_wf
   exact ⟨K, D, fun s r i hi f hf => C01.matching_conforms hw (plainGB_sound _ rfc_plain) s r i hi f hf⟩
+
+/-- the reader's rules paired BY NAME with the RFC's rules -/
+def pairs : List (Nat × Nat) :=
+  AbnfGen.metaGNames.filterMap (fun (n, k) => (Ref.indexOf n).map (fun j => (k, j)))
+
+/-- every rule of the reader's table is paired, with the rule of the same name -/
+theorem pairs_cover_reader : pairs.map (·.1) = List.range AbnfGen.metaG.size := by decide +kernel
+theorem pairs_same_name :
+    pairs.all (fun p => (AbnfGen.metaG.toList[p.1]?).map (·.name) == (Ref.rfcG.toList[p.2]?).map (·.name)) = true := by
+  decide +kernel
+/-- every rule of RFC 5234 section 4 and RFC 7405 (indices 16..39 of `Ref.rfcG`) is paired -/
+theorem pairs_cover_rfc_section4 :
+    ((List.range 24).map (· + 16)).all (fun j => (pairs.map (·.2)).contains j) = true := by decide +kernel
+
+theorem equiv_ok : equivOk AbnfGen.metaG Ref.rfcG pairs 12 = true := by decide +kernel
+
+/-- **The reader's grammar IS the RFC's grammar**, rule for rule: for every text and span, a reader rule matches
+iff the RFC rule of the same name does. -/
+theorem reader_equiv_rfc (r1 r2 : Nat) (hmem : (r1, r2) ∈ pairs) (s : Src) (i j : Nat) :
+    M AbnfGen.metaG s (.ref r1) i j ↔ M Ref.rfcG s (.ref r2) i j :=
+  equiv_pairs equiv_ok hmem s i j
+
+/-- the reader's engine run, stated against the RFC grammar itself -/
+theorem reader_exact_wrt_rfc (r1 r2 : Nat) (hmem : (r1, r2) ∈ pairs) (s : Src) (i : Nat) (hi : i ≤ s.length) (f : Nat)
+    (hf : fuelFor AbnfGen.metaGK AbnfGen.metaGD (s.length - i) AbnfGen.metaGK 0 ≤ f) :
+    (∃ ms, lparse AbnfGen.metaG f s (.ref r1) i = .ok ms ∧ ∀ j, j ∈ stops ms ↔ M Ref.rfcG s (.ref r2) i j) ∨
+    (lparse AbnfGen.metaG f s (.ref r1) i = .fail ∧ ∀ j, ¬ M Ref.rfcG s (.ref r2) i j) ∨
+    lparse AbnfGen.metaG f s (.ref r1) i = .gerr := by
+  rcases reader_total_and_exact s r1 i hi f hf with ⟨ms, h1, h2⟩ | ⟨h1, h2⟩ | h1
+  · exact Or.inl ⟨ms, h1, fun j => (h2 j).trans (reader_equiv_rfc r1 r2 hmem s i j)⟩
+  · exact Or.inr (Or.inl ⟨h1, fun j hm => h2 j ((reader_equiv_rfc r1 r2 hmem s i j).mpr hm)⟩)
+  · exact Or.inr (Or.inr h1)
+
+theorem pairs_defined : pairs.all (fun p => definedB AbnfGen.metaG p.1) = true := by decide +kernel
+
+/-- **Consequently a text is accepted as a rule / rulelist (or any other meta rule) iff it is ABNF**: the model's
+`parse_all` over the reader's table accepts `s` with rule X iff the whole of `s` is derivable from X in the RFC grammar;
+a text that is not gets ParseError (never GrammarError, never non-termination) - for every text, every hash order. -/
+theorem accepted_iff_abnf (r1 r2 : Nat) (hmem : (r1, r2) ∈ pairs) (perm : List Match → List Match) (hp : SameMembers perm)
+    (s : Src) (f : Nat) (hf : fuelFor AbnfGen.metaGK AbnfGen.metaGD s.length AbnfGen.metaGK 0 ≤ f) :
+    (Accepts perm AbnfGen.metaG f s r1 ↔ M Ref.rfcG s (.ref r2) 0 s.length) ∧
+    (¬ Accepts perm AbnfGen.metaG f s r1 → parseAllWith perm AbnfGen.metaG f s r1 = .fail) := by
+  have hd := List.all_eq_true.mp pairs_defined _ hmem
+  have A := accepts_iff_derivable_on (wfCheck_sound _ _ _ _ _ Obl.Meta.meta_wf) (closedGB_sound _ Obl.Meta.meta_closed) _
+    (gplainOn_of_gplain (plainGB_sound _ Obl.Meta.meta_plain)) perm hp s r1 trivial (definedB_sound hd) f hf
+  exact ⟨A.1.trans (reader_equiv_rfc r1 r2 hmem s 0 s.length), A.2⟩
+
+/-- non-vacuity: `rulelist` is paired with `rulelist` -/
+example : (0, 16) ∈ pairs := by decide +kernel
 
 end Abnf.C05
